@@ -221,7 +221,7 @@ func (p c14) AfterOp(x *Exec, task, idx int, op Op, out Outcome) {
 			return
 		}
 		for _, r := range out.Ret {
-			if r == "\"bad\"" {
+			if _, installed := st.m.S[0].Pol["push"]; installed && r == "\"bad\"" {
 				x.fail("rejected-value-visible:"+op.M, fmt.Sprintf("task %d: %s returned the value the push policy rejected", task, op))
 				return
 			}
@@ -497,6 +497,10 @@ func (c14) query(x *Exec, st *c14state, op Op, out Outcome, log []Consult) {
 
 func (c14) AfterStep(x *Exec, t *task, ev event, pre []string, held map[uintptr]bool) {
 	// concurrent configuration: nothing the policy rejected is ever visible
+	st := x.state.(*c14state)
+	if _, installed := st.m.S[0].Pol["push"]; !installed {
+		return // no policy, nothing is "rejected"
+	}
 	d := x.w.dump(0)
 	_, slots := splitDump(d)
 	if strings.Contains(slots, "\"bad\"") {
